@@ -382,7 +382,7 @@ def _contracts_w(tier: str, w: int) -> List[IOContract]:
                 add(g, 'hex.print_int', f'hex.print_int {n}, x, {pf}, {uc}', {'x': Var('hex', n, 'in')}, lambda v: {}, 'print the signed x[:n], without leading zeros.  x_prefix (constant): print with the "0x" prefix.  use_uppercase (constant): if true, print in uppercase (else lowercase).',
                     values('hex', n, signed_order=True), output=lambda v, pf=pf, uc=uc, n=n: fmt_hex(signed(v['x'], 4 * n), bool(pf), bool(uc)))
     for pf in (0, 1):
-        for n in [b for b in BN + (20, 32) if b % 4 == 0]:  # "@Assumes n can be divided by 4."
+        for n in sorted({b for b in BN + (20, 32) if b % 4 == 0}):  # "@Assumes n can be divided by 4."
             add(g, 'bit.print_hex_uint', f'bit.print_hex_uint {n}, x, {pf}', {'x': Var('bit', n, 'in')}, lambda v: {}, 'print x[:n] as an unsigned hexadecimal number, without leading zeros (digits & capital-letters).  x_prefix (constant): print with the "0x" prefix.  @Assumes n can be divided by 4.',
                 values('bit', n), output=lambda v, pf=pf: fmt_hex(v['x'], bool(pf), True), weight=n)
             add(g, 'bit.print_hex_int', f'bit.print_hex_int {n}, x, {pf}', {'x': Var('bit', n, 'in')}, lambda v: {}, 'print x[:n] as a signed hexadecimal number, without leading zeros (digits & capital-letters).  x_prefix (constant): print with the "0x" prefix.  @Assumes n can be divided by 4.',
